@@ -59,6 +59,12 @@ func (p *Provider) Provide(w io.WriteSeeker) (retErr error) {
 		if _, err := w.Seek(0, io.SeekStart); err != nil {
 			return err
 		}
+		// A failed attempt may have written more than this one will: drop its bytes.
+		if t, ok := w.(interface{ Truncate(size int64) error }); ok {
+			if err := t.Truncate(0); err != nil {
+				return err
+			}
+		}
 		err := p.str.Backup(context.Background(), br, w)
 		if err == nil {
 			break
